@@ -145,6 +145,22 @@ theorem codama_preserves_ix (k : ArgKind) (s : IdlSet) (accts rems : List CAcc)
     · cases h
   · cases h
 
+/-- **PDA seeds keep their parent.** In a successful lowering every account is `toCAcc path x` of a leaf
+of the IDL set, and the accounts its PDA default value derives from are the IDL's account-path seeds
+ALL resolved against one and the same parent — the path of the set holding the seeded account
+(`path.dropLast`), whatever the nesting depth and however many seeds there are; `:`-rooted paths are kept. -/
+theorem codama_seeds_same_parent (s : IdlSet) (accts rems : List CAcc) (h : lowerDef s = .ok (accts, rems)) :
+    accts ++ rems = leaves s [] ∧
+    ∀ (ps : List String) (x : Single), (toCAcc ps x).seedAccounts =
+      (if x.address.isSome then [] else x.seeds.filterMap (resolveSeed ps.dropLast)) :=
+  ⟨codama_preserves s accts rems h, fun _ _ => rfl⟩
+
+/-- two relative seeds at depth 2 both resolve under `target` (the decoy top-level `mint` is not picked) -/
+example : seedAccountsOf ["target", "vault"] { seeds := [.const, .rel ["market"], .rel ["mint"], .root ["payer"]] }
+    = [pathName ["target", " ".intercalate ["market"]], pathName ["target", " ".intercalate ["mint"]],
+       camel (" ".intercalate ["payer"])] := by
+  simp [seedAccountsOf, List.filterMap, resolveSeed]
+
 /-! ### non-vacuity -/
 
 /-- `UnsizedList<List<u8, u8>>` holding `[[1,2],[3]]` — the bytes of DESIGN.md 2.3. -/
